@@ -6,6 +6,7 @@ import (
 	"encoding/json"
 	"fmt"
 	"hash"
+	"os"
 	"runtime/debug"
 	"sort"
 	"testing"
@@ -249,8 +250,28 @@ func Run(t *testing.T, e Engine, p *Plan, keepLog bool) (out *Outcome) {
 	c := newCtx(t, p, keepLog)
 	defer func() {
 		if r := recover(); r != nil {
+			stack := debug.Stack()
+			// (a panic inside a bubble is re-raised by Bubble as text that
+			// carries the original stack)
+			site := repoPanicSite(fmt.Sprint(r))
+			if site == "" {
+				site = repoPanicSite(string(stack))
+			}
+			if f := os.Getenv("SIM_DEBUG_PANIC"); f != "" && site == "" {
+				os.WriteFile(f, []byte(fmt.Sprintf("%v\n----\n%s", r, stack)), 0644)
+			}
+			if site != "" && p.Property != "" {
+				// the panic arose inside the code under test while the engine
+				// was exercising it for this property: an operation that
+				// crashes did not deliver what the property promises
+				c.UnhashedViolations = false
+				c.Violate(p.Property, "no-panic", p.Property+"/panic-in-code-under-test/"+site,
+					"the code under test panicked in %s: %v", site, r)
+				out = c.finish()
+				return
+			}
 			out = c.finish()
-			out.HarnessErr = fmt.Sprintf("panic in engine: %v\n%s", r, trimStack(debug.Stack()))
+			out.HarnessErr = fmt.Sprintf("panic in engine: %.1500v\n%s", r, trimStack(stack))
 		}
 	}()
 	e.Execute(c)
